@@ -95,12 +95,20 @@ func runC18(c *core.Ctx, o Options) {
 	if f := c.Func("fix", "ValueByTag"); f != nil {
 		scope = append(scope, f)
 	}
-	if f := c.Func("", "Conn.runReader"); f != nil {
-		scope = append(scope, f)
+	readerGroup := map[*ssa.Function]bool{}
+	for _, g := range readerScope(c) {
+		scope = append(scope, g)
+		readerGroup[g] = true
 	}
 	nTag := needleCensus(c, "needle", scope)
 	c.Check(nTag >= 6, "needle", "", "tag searches found", token.NoPos, fmt.Sprint(nTag), fmt.Sprintf("only %d tag-derived searches found; 6 were confirmed by reading", nTag))
 	checkGroupSeparator(c, "needle")
+	// end-of-message detection: the segment the CheckSum tag is compared with is a whole field — the reader consumes the stream
+	// with one ReadBytes(SOH) site, keeps what it read, and a read error ends it (the framing rules C04·F1–F3): a byte-wise matcher
+	// that restarts inside a tag, or a reader that resumes a field after a timeout, lets "10=" match in the middle of a field
+	c.RulePrefix = "frame"
+	framingRules(c, libFuncs(c))
+	c.RulePrefix = ""
 	// ---- the lookups the handler and the session make on raw bytes use the configured tags
 	for _, pk := range []string{"", "session"} {
 		pkg := c.SSAPkg(pk)
@@ -114,7 +122,7 @@ func runC18(c *core.Ctx, o Options) {
 				if cal == nil || cal.Pkg == nil {
 					return
 				}
-				if (cal.Pkg.Pkg.Path() == "bytes" || cal.Pkg.Pkg.Path() == "strings") && an.NameOf(fn) != "runReader" {
+				if (cal.Pkg.Pkg.Path() == "bytes" || cal.Pkg.Pkg.Path() == "strings") && !readerGroup[fn] {
 					if _, isSearch := searchFuncs[an.NameOf(cal)]; isSearch {
 						// strings.Contains(err.Error(), …) is not a search on message bytes
 						if strings.Contains(an.Render(call.Call.Args[0]), ".Error()") {
@@ -131,7 +139,8 @@ func runC18(c *core.Ctx, o Options) {
 			})
 		}
 	}
-	c.RuleMin = map[string]int{"needle": 10, "raw": 4}
+	c.Explanation += " frame (= C04.F1–F3): the segment the end-of-message tag is compared with is a whole field — one ReadBytes(SOH) site, nothing read is dropped or re-used, a read error ends the reader."
+	c.RuleMin = map[string]int{"needle": 10, "raw": 4, "frame": 8}
 	c.MinObl = 13
 }
 
@@ -144,6 +153,12 @@ func isParam(v ssa.Value) bool {
 
 // isReadSegment: v is result #0 of a bufio ReadBytes call.
 func isReadSegment(v ssa.Value) bool {
+	// the parameter of a predicate cut out of the reader stands for the argument at its only call site
+	if p, isP := v.(*ssa.Parameter); isP && p.Parent() != nil {
+		if w, has := an.OwnerSub(p.Parent())[p]; has && w != v {
+			return isReadSegment(w)
+		}
+	}
 	ex, ok := v.(*ssa.Extract)
 	if !ok || ex.Index != 0 {
 		return false
@@ -380,4 +395,19 @@ func checkGroupSeparator(c *core.Ctx, rule string) {
 		})
 		c.Check(okSplit, rule, "splitGroup", "the next entry is found by searching the whole separator after the current entry's first byte", sg.Pos(), "Index(line[1:], firstTag)", "splitGroup does not search Index(line[1:], separator)")
 	}
+}
+
+// readerScope: Conn.runReader and the helpers cut out of it (a predicate for the end-of-message test belongs to the reader).
+func readerScope(c *core.Ctx) []*ssa.Function {
+	f := c.Func("", "Conn.runReader")
+	if f == nil {
+		return nil
+	}
+	out := []*ssa.Function{f}
+	for _, g := range pkgFuncs(f.Pkg) {
+		if owner, _ := an.LogicalOwner(g); owner == f && g != f {
+			out = append(out, g)
+		}
+	}
+	return out
 }
